@@ -5,6 +5,7 @@ import (
 	"go/constant"
 	"go/token"
 	"go/types"
+	"os"
 	"sort"
 	"strings"
 
@@ -87,242 +88,261 @@ func C10(c *core.Ctx) {
 	}
 	var sites []site
 	for _, fn := range p.OwnFuncs() {
-		var dst []*ssa.Alloc
+		// candidate destinations in three tiers: the local named usar; any other non-literal local of the
+		// destination type; the literal itself (the converted value built in one expression, e.g. by an expanded
+		// helper). A later tier is consulted only when the earlier ones yielded no conversion in this function.
+		var tiers [3][]*ssa.Alloc
 		core.Instrs(fn, func(in ssa.Instruction) {
-			if al, ok := in.(*ssa.Alloc); ok && !al.Heap && types.Identical(al.Type().(*types.Pointer).Elem(), dstT) && al.Comment == "usar" {
-				dst = append(dst, al)
+			al, ok := in.(*ssa.Alloc)
+			if !ok || !types.Identical(al.Type().(*types.Pointer).Elem(), dstT) {
+				return
+			}
+			switch {
+			case !al.Heap && al.Comment == "usar":
+				tiers[0] = append(tiers[0], al)
+			case al.Comment == "complit":
+				tiers[2] = append(tiers[2], al)
+			case al.Comment != "r":
+				tiers[1] = append(tiers[1], al)
 			}
 		})
-		// fall back: any non-complit local of the destination type
-		if len(dst) == 0 {
-			core.Instrs(fn, func(in ssa.Instruction) {
-				if al, ok := in.(*ssa.Alloc); ok && types.Identical(al.Type().(*types.Pointer).Elem(), dstT) && al.Comment != "complit" && al.Comment != "r" {
-					dst = append(dst, al)
-				}
-			})
+		if len(tiers[0]) > 0 {
+			tiers[1] = nil
 		}
-		for _, d := range dst {
-			as := map[string][]ssa.Value{}
-			structAssigns(d, "", as, 0)
-			tbl := map[string]string{}
-			fromSrc := false
-			hasTrg := false
-			var srcRoot ssa.Value
-			// a field filled by an own helper that returns a struct literal built from its parameter
-			// (e.g. usar.VolumMeasure = newVolumeMeasure(r.VolMeasurement)): expand it field by field,
-			// composing the helper's parameter paths with the argument's path
-			type srcRef struct {
-				root  ssa.Value
-				names []string
+		sitesBefore := len(sites)
+		for _, dst := range tiers {
+			if len(sites) > sitesBefore {
+				break
 			}
-			composed := map[ssa.Value]srcRef{}
-			for path, vals := range as {
-				if len(vals) != 1 {
-					continue
+			for _, d := range dst {
+				as := map[string][]ssa.Value{}
+				structAssigns(d, "", as, 0)
+				tbl := map[string]string{}
+				fromSrc := false
+				hasTrg := false
+				var srcRoot ssa.Value
+				// a field filled by an own helper that returns a struct literal built from its parameter
+				// (e.g. usar.VolumMeasure = newVolumeMeasure(r.VolMeasurement)): expand it field by field,
+				// composing the helper's parameter paths with the argument's path
+				type srcRef struct {
+					root  ssa.Value
+					names []string
 				}
-				cl, ok := vals[0].(*ssa.Call)
-				if !ok {
-					continue
-				}
-				sf := core.StaticFn(cl)
-				if sf == nil || sf.Blocks == nil || !p.IsOwnFn(sf) || cl.Call.IsInvoke() {
-					continue
-				}
-				var lit *ssa.Alloc
-				nRet := 0
-				core.Instrs(sf, func(in ssa.Instruction) {
-					if r, isR := in.(*ssa.Return); isR && len(r.Results) == 1 {
-						nRet++
-						if ld, isLd := r.Results[0].(*ssa.UnOp); isLd && ld.Op == token.MUL {
-							lit, _ = ld.X.(*ssa.Alloc)
+				composed := map[ssa.Value]srcRef{}
+				for path, vals := range as {
+					if len(vals) != 1 {
+						continue
+					}
+					cl, ok := vals[0].(*ssa.Call)
+					if !ok {
+						continue
+					}
+					sf := core.StaticFn(cl)
+					if sf == nil || sf.Blocks == nil || !p.IsOwnFn(sf) || cl.Call.IsInvoke() {
+						continue
+					}
+					var lit *ssa.Alloc
+					nRet := 0
+					core.Instrs(sf, func(in ssa.Instruction) {
+						if r, isR := in.(*ssa.Return); isR && len(r.Results) == 1 {
+							nRet++
+							if ld, isLd := r.Results[0].(*ssa.UnOp); isLd && ld.Op == token.MUL {
+								lit, _ = ld.X.(*ssa.Alloc)
+							}
+						}
+					})
+					if nRet != 1 || lit == nil {
+						continue
+					}
+					sub := map[string][]ssa.Value{}
+					structAssigns(lit, "", sub, 0)
+					okAll := len(sub) > 0
+					exp := map[string]ssa.Value{}
+					for sp, svs := range sub {
+						if len(svs) != 1 {
+							okAll = false
+							break
+						}
+						r2, n2 := core.FieldPath(svs[0])
+						if al, isAl := r2.(*ssa.Alloc); isAl { // a struct parameter spilled to a local
+							if sv, ok := aggregateSingleStore(al); ok {
+								r2 = sv
+							}
+						}
+						par, isPar := r2.(*ssa.Parameter)
+						if !isPar {
+							okAll = false
+							break
+						}
+						idx := -1
+						for i, pp := range sf.Params {
+							if pp == par {
+								idx = i
+							}
+						}
+						if idx < 0 || idx >= len(cl.Call.Args) {
+							okAll = false
+							break
+						}
+						ra, na := core.FieldPath(cl.Call.Args[idx])
+						composed[svs[0]] = srcRef{ra, append(append([]string{}, na...), n2...)}
+						exp[path+"."+sp] = svs[0]
+					}
+					if okAll {
+						delete(as, path)
+						for k, v := range exp {
+							as[k] = []ssa.Value{v}
 						}
 					}
-				})
-				if nRet != 1 || lit == nil {
-					continue
 				}
-				sub := map[string][]ssa.Value{}
-				structAssigns(lit, "", sub, 0)
-				okAll := len(sub) > 0
-				exp := map[string]ssa.Value{}
-				for sp, svs := range sub {
-					if len(svs) != 1 {
-						okAll = false
-						break
-					}
-					r2, n2 := core.FieldPath(svs[0])
-					if al, isAl := r2.(*ssa.Alloc); isAl { // a struct parameter spilled to a local
-						if sv, ok := aggregateSingleStore(al); ok {
-							r2 = sv
+				for path, vals := range as {
+					for _, v := range vals {
+						root, names := fieldPathThroughCopies(v)
+						if cr, ok := composed[v]; ok {
+							root, names = cr.root, cr.names
 						}
-					}
-					par, isPar := r2.(*ssa.Parameter)
-					if !isPar {
-						okAll = false
-						break
-					}
-					idx := -1
-					for i, pp := range sf.Params {
-						if pp == par {
-							idx = i
-						}
-					}
-					if idx < 0 || idx >= len(cl.Call.Args) {
-						okAll = false
-						break
-					}
-					ra, na := core.FieldPath(cl.Call.Args[idx])
-					composed[svs[0]] = srcRef{ra, append(append([]string{}, na...), n2...)}
-					exp[path+"."+sp] = svs[0]
-				}
-				if okAll {
-					delete(as, path)
-					for k, v := range exp {
-						as[k] = []ssa.Value{v}
-					}
-				}
-			}
-			for path, vals := range as {
-				for _, v := range vals {
-					root, names := core.FieldPath(v)
-					if cr, ok := composed[v]; ok {
-						root, names = cr.root, cr.names
-					}
-					if root != nil && len(names) > 0 && isPtrTo(root.Type(), srcT) {
-						fromSrc = true
-						if srcRoot == nil {
-							srcRoot = root
-						}
-						if root != srcRoot {
-							tbl[path] = "<another source value>." + strings.Join(names, ".")
+						if root != nil && len(names) > 0 && isPtrTo(root.Type(), srcT) {
+							fromSrc = true
+							if srcRoot == nil {
+								srcRoot = root
+							}
+							if root != srcRoot {
+								tbl[path] = "<another source value>." + strings.Join(names, ".")
+							} else {
+								tbl[path] = strings.Join(names, ".")
+							}
 						} else {
-							tbl[path] = strings.Join(names, ".")
+							tbl[path] = "<" + v.Name() + ">"
 						}
-					} else {
-						tbl[path] = "<" + v.Name() + ">"
 					}
 				}
-			}
-			// trigger set through SetReportingTrigger(r.USARTrigger)
-			core.Instrs(fn, func(in ssa.Instruction) {
-				if ci, ok := in.(ssa.CallInstruction); ok {
-					if f := core.Callee(ci); f != nil && f.Name() == "SetReportingTrigger" {
-						if fa, ok := core.CallRecv(ci).(*ssa.FieldAddr); ok && fa.X == ssa.Value(d) {
-							root, names := core.FieldPath(core.CallArgs(ci)[0])
-							if root == srcRoot && len(names) == 1 {
-								tbl["USARTrigger.Flags"] = names[0]
-								hasTrg = true
+				// trigger set through SetReportingTrigger(r.USARTrigger)
+				core.Instrs(fn, func(in ssa.Instruction) {
+					if ci, ok := in.(ssa.CallInstruction); ok {
+						if f := core.Callee(ci); f != nil && f.Name() == "SetReportingTrigger" {
+							if fa, ok := core.CallRecv(ci).(*ssa.FieldAddr); ok && fa.X == ssa.Value(d) {
+								root, names := core.FieldPath(core.CallArgs(ci)[0])
+								if root == srcRoot && len(names) == 1 {
+									tbl["USARTrigger.Flags"] = names[0]
+									hasTrg = true
+								}
 							}
 						}
 					}
+				})
+				if _, ok := tbl["USARTrigger.Flags"]; ok {
+					hasTrg = true
 				}
-			})
-			if _, ok := tbl["USARTrigger.Flags"]; ok {
-				hasTrg = true
-			}
-			if !fromSrc {
-				continue
-			}
-			sites = append(sites, site{fn, tbl, hasTrg})
-			name := core.FnName(fn)
-			for dpath, spath := range usarFieldMap {
-				got, ok := tbl[dpath]
-				if dpath == "USARTrigger.Flags" {
-					if ok {
-						c.Check("R1", "conv:"+name+":"+dpath, d.Pos(), got == spath, fmt.Sprintf("%s <- %s (must come from the source report's %s)", dpath, got, spath))
+				if os.Getenv("UPF_DEBUG") != "" {
+					fmt.Fprintln(os.Stderr, "C10 conv candidate", core.FnName(fn), d.Name(), d.Comment, fromSrc, tbl)
+				}
+				if !fromSrc {
+					continue
+				}
+				sites = append(sites, site{fn, tbl, hasTrg})
+				name := core.FnName(fn)
+				if os.Getenv("UPF_DEBUG") != "" {
+					fmt.Fprintln(os.Stderr, "C10 conv site", name, d.Name(), d.Comment, len(tbl))
+				}
+				for dpath, spath := range usarFieldMap {
+					got, ok := tbl[dpath]
+					if dpath == "USARTrigger.Flags" {
+						if ok {
+							c.Check("R1", "conv:"+name+":"+dpath, d.Pos(), got == spath, fmt.Sprintf("%s <- %s (must come from the source report's %s)", dpath, got, spath))
+						}
+						continue
 					}
-					continue
+					c.Check("R1", "conv:"+name+":"+dpath, d.Pos(), ok && got == spath, fmt.Sprintf("%s <- %s (must come from the same source report's %s)", dpath, got, spath))
 				}
-				c.Check("R1", "conv:"+name+":"+dpath, d.Pos(), ok && got == spath, fmt.Sprintf("%s <- %s (must come from the same source report's %s)", dpath, got, spath))
-			}
-			// every source report of the batch is converted AND kept: the loop over the source reports has no
-			// path that skips the append / map entry of the converted value (errors leave by return only
-			// before the loop; a value-dependent `continue` would drop reports, e.g. all-zero counters)
-			var keep ssa.Instruction
-			for _, r := range *d.Referrers() {
-				ld, ok := r.(*ssa.UnOp)
-				if !ok || ld.Op != token.MUL {
-					continue
-				}
-				for _, u := range *ld.Referrers() {
-					switch y := u.(type) {
-					case *ssa.Store: // element of the variadic slice of append(list, usar)
-						if ia, ok := y.Addr.(*ssa.IndexAddr); ok {
-							if al, ok := ia.X.(*ssa.Alloc); ok {
-								for _, r3 := range *al.Referrers() {
-									if sl, ok := r3.(*ssa.Slice); ok {
-										for _, r4 := range *sl.Referrers() {
-											if cl, ok := r4.(*ssa.Call); ok {
-												if bi, ok := cl.Call.Value.(*ssa.Builtin); ok && bi.Name() == "append" {
-													keep = cl
+				// every source report of the batch is converted AND kept: the loop over the source reports has no
+				// path that skips the append / map entry of the converted value (errors leave by return only
+				// before the loop; a value-dependent `continue` would drop reports, e.g. all-zero counters)
+				var keep ssa.Instruction
+				for _, r := range *d.Referrers() {
+					ld, ok := r.(*ssa.UnOp)
+					if !ok || ld.Op != token.MUL {
+						continue
+					}
+					for _, u := range *ld.Referrers() {
+						switch y := u.(type) {
+						case *ssa.Store: // element of the variadic slice of append(list, usar)
+							if ia, ok := y.Addr.(*ssa.IndexAddr); ok {
+								if al, ok := ia.X.(*ssa.Alloc); ok {
+									for _, r3 := range *al.Referrers() {
+										if sl, ok := r3.(*ssa.Slice); ok {
+											for _, r4 := range *sl.Referrers() {
+												if cl, ok := r4.(*ssa.Call); ok {
+													if bi, ok := cl.Call.Value.(*ssa.Builtin); ok && bi.Name() == "append" {
+														keep = cl
+													}
 												}
 											}
 										}
 									}
 								}
 							}
-						}
-					case *ssa.MapUpdate:
-						keep = y
-					}
-				}
-			}
-			hdr := loopHeaderOf(d)
-			if keep != nil && hdr != d.Block() || (keep != nil && inAnyLoop(d)) {
-				skips, where := iterationSkips(loopHeaderOf(keep), keep.Block())
-				pos := keep.Pos()
-				if where != nil {
-					pos = where.Instrs[len(where.Instrs)-1].Pos()
-				}
-				c.Check("R1", "conv-total:"+name, pos, !skips, "every report of the batch is converted and kept (no iteration of the conversion loop skips it)")
-			} else if keep == nil {
-				// a conversion helper (returns the converted report): the list is kept by its callers - judge every
-				// call site's loop instead, and count the call sites as conversion sites
-				returnsIt := false
-				core.Instrs(fn, func(in ssa.Instruction) {
-					if r, isR := in.(*ssa.Return); isR && len(r.Results) >= 1 {
-						if ld, isLd := r.Results[0].(*ssa.UnOp); isLd && ld.X == ssa.Value(d) {
-							returnsIt = true
+						case *ssa.MapUpdate:
+							keep = y
 						}
 					}
-				})
-				nCallers := 0
-				if returnsIt {
-					for _, caller := range p.OwnFuncs() {
-						for _, ci := range core.Calls(caller, fn.Object().(*types.Func)) {
-							nCallers++
-							var keep2 ssa.Instruction
-							if v := ci.Value(); v != nil {
-								for _, u := range *v.Referrers() {
-									switch y := u.(type) {
-									case *ssa.Store:
-										if ia, ok := y.Addr.(*ssa.IndexAddr); ok {
-											if al, ok := ia.X.(*ssa.Alloc); ok {
-												for _, r3 := range *al.Referrers() {
-													if sl, ok := r3.(*ssa.Slice); ok {
-														for _, r4 := range *sl.Referrers() {
-															if cl, ok := r4.(*ssa.Call); ok {
-																if bi, ok := cl.Call.Value.(*ssa.Builtin); ok && bi.Name() == "append" {
-																	keep2 = cl
+				}
+				hdr := loopHeaderOf(d)
+				if keep != nil && hdr != d.Block() || (keep != nil && inAnyLoop(d)) {
+					skips, where := iterationSkips(loopHeaderOf(keep), keep.Block())
+					pos := keep.Pos()
+					if where != nil {
+						pos = where.Instrs[len(where.Instrs)-1].Pos()
+					}
+					c.Check("R1", "conv-total:"+name, pos, !skips, "every report of the batch is converted and kept (no iteration of the conversion loop skips it)")
+				} else if keep == nil {
+					// a conversion helper (returns the converted report): the list is kept by its callers - judge every
+					// call site's loop instead, and count the call sites as conversion sites
+					returnsIt := false
+					core.Instrs(fn, func(in ssa.Instruction) {
+						if r, isR := in.(*ssa.Return); isR && len(r.Results) >= 1 {
+							if ld, isLd := r.Results[0].(*ssa.UnOp); isLd && ld.X == ssa.Value(d) {
+								returnsIt = true
+							}
+						}
+					})
+					nCallers := 0
+					if returnsIt {
+						for _, caller := range p.OwnFuncs() {
+							for _, ci := range core.Calls(caller, fn.Object().(*types.Func)) {
+								nCallers++
+								var keep2 ssa.Instruction
+								if v := ci.Value(); v != nil {
+									for _, u := range *v.Referrers() {
+										switch y := u.(type) {
+										case *ssa.Store:
+											if ia, ok := y.Addr.(*ssa.IndexAddr); ok {
+												if al, ok := ia.X.(*ssa.Alloc); ok {
+													for _, r3 := range *al.Referrers() {
+														if sl, ok := r3.(*ssa.Slice); ok {
+															for _, r4 := range *sl.Referrers() {
+																if cl, ok := r4.(*ssa.Call); ok {
+																	if bi, ok := cl.Call.Value.(*ssa.Builtin); ok && bi.Name() == "append" {
+																		keep2 = cl
+																	}
 																}
 															}
 														}
 													}
 												}
-											}
-										} else if al, ok := y.Addr.(*ssa.Alloc); ok { // usar := convert(r); ... append(list, usar)
-											for _, r3 := range *al.Referrers() {
-												if ld, ok := r3.(*ssa.UnOp); ok {
-													for _, r4 := range *ld.Referrers() {
-														if st2, ok := r4.(*ssa.Store); ok {
-															if ia, ok := st2.Addr.(*ssa.IndexAddr); ok {
-																if al2, ok := ia.X.(*ssa.Alloc); ok {
-																	for _, r5 := range *al2.Referrers() {
-																		if sl, ok := r5.(*ssa.Slice); ok {
-																			for _, r6 := range *sl.Referrers() {
-																				if cl, ok := r6.(*ssa.Call); ok {
-																					if bi, ok := cl.Call.Value.(*ssa.Builtin); ok && bi.Name() == "append" {
-																						keep2 = cl
+											} else if al, ok := y.Addr.(*ssa.Alloc); ok { // usar := convert(r); ... append(list, usar)
+												for _, r3 := range *al.Referrers() {
+													if ld, ok := r3.(*ssa.UnOp); ok {
+														for _, r4 := range *ld.Referrers() {
+															if st2, ok := r4.(*ssa.Store); ok {
+																if ia, ok := st2.Addr.(*ssa.IndexAddr); ok {
+																	if al2, ok := ia.X.(*ssa.Alloc); ok {
+																		for _, r5 := range *al2.Referrers() {
+																			if sl, ok := r5.(*ssa.Slice); ok {
+																				for _, r6 := range *sl.Referrers() {
+																					if cl, ok := r6.(*ssa.Call); ok {
+																						if bi, ok := cl.Call.Value.(*ssa.Builtin); ok && bi.Name() == "append" {
+																							keep2 = cl
+																						}
 																					}
 																				}
 																			}
@@ -330,45 +350,45 @@ func C10(c *core.Ctx) {
 																	}
 																}
 															}
-														}
-														if mu, ok := r4.(*ssa.MapUpdate); ok {
-															keep2 = mu
+															if mu, ok := r4.(*ssa.MapUpdate); ok {
+																keep2 = mu
+															}
 														}
 													}
 												}
 											}
+										case *ssa.MapUpdate:
+											keep2 = y
 										}
-									case *ssa.MapUpdate:
-										keep2 = y
 									}
 								}
+								cname := core.FnName(caller)
+								if keep2 == nil {
+									c.Check("R1", "conv-total:"+cname, ci.Pos(), false, "the report converted by "+name+" is not appended to a result list")
+									continue
+								}
+								skips, where := iterationSkips(loopHeaderOf(keep2), keep2.Block())
+								pos := keep2.Pos()
+								if where != nil {
+									pos = where.Instrs[len(where.Instrs)-1].Pos()
+								}
+								c.Check("R1", "conv-total:"+cname, pos, !skips, "every report of the batch is converted (by "+name+") and kept (no iteration of the conversion loop skips it)")
 							}
-							cname := core.FnName(caller)
-							if keep2 == nil {
-								c.Check("R1", "conv-total:"+cname, ci.Pos(), false, "the report converted by "+name+" is not appended to a result list")
-								continue
-							}
-							skips, where := iterationSkips(loopHeaderOf(keep2), keep2.Block())
-							pos := keep2.Pos()
-							if where != nil {
-								pos = where.Instrs[len(where.Instrs)-1].Pos()
-							}
-							c.Check("R1", "conv-total:"+cname, pos, !skips, "every report of the batch is converted (by "+name+") and kept (no iteration of the conversion loop skips it)")
 						}
 					}
+					if nCallers == 0 {
+						c.Check("R1", "conv-total:"+name, d.Pos(), false, "the converted report is not appended to a result list")
+					}
+					// the helper was counted as one site already; every further call site is one more
+					for i := 1; i < nCallers; i++ {
+						sites = append(sites, site{fn, tbl, hasTrg})
+					}
 				}
-				if nCallers == 0 {
-					c.Check("R1", "conv-total:"+name, d.Pos(), false, "the converted report is not appended to a result list")
-				}
-				// the helper was counted as one site already; every further call site is one more
-				for i := 1; i < nCallers; i++ {
-					sites = append(sites, site{fn, tbl, hasTrg})
-				}
-			}
-			// nothing else is filled from a wrong place
-			for dpath, got := range tbl {
-				if _, known := usarFieldMap[dpath]; !known {
-					c.Observe("%s: field %s <- %s is outside the transcribed conversion table", name, dpath, got)
+				// nothing else is filled from a wrong place
+				for dpath, got := range tbl {
+					if _, known := usarFieldMap[dpath]; !known {
+						c.Observe("%s: field %s <- %s is outside the transcribed conversion table", name, dpath, got)
+					}
 				}
 			}
 		}
@@ -1097,4 +1117,29 @@ func freshReportLists(c *core.Ctx, rule string) {
 		})
 	}
 	c.Floor(rule, nN, 3, "NotifySessReport call sites")
+}
+
+// fieldPathThroughCopies is core.FieldPath continued through struct-typed locals that hold a copy of a field of
+// another value (a struct parameter of an expanded helper, spilled to a local: m := r.VolMeasurement; ... m.TotalVolume).
+func fieldPathThroughCopies(v ssa.Value) (ssa.Value, []string) {
+	root, names := core.FieldPath(v)
+	for i := 0; i < 4; i++ {
+		al, ok := root.(*ssa.Alloc)
+		if !ok || len(names) == 0 {
+			break
+		}
+		sv, ok := aggregateSingleStore(al)
+		if !ok {
+			break
+		}
+		r2, n2 := core.FieldPath(sv)
+		if r2 == nil || r2 == sv {
+			break
+		}
+		if _, isPtr := r2.Type().Underlying().(*types.Pointer); !isPtr {
+			break // the copied value is not a field of something addressable: the local is the root
+		}
+		root, names = r2, append(append([]string{}, n2...), names...)
+	}
+	return root, names
 }
